@@ -2,11 +2,14 @@ import PsecModel.Lemmas.Tables.Ascii
 import PsecModel.Lemmas.Tables.Version
 import PsecModel.Lemmas.Tables.Dispatch
 import PsecModel.Lemmas.Tables.Card
+import PsecModel.Lemmas.Tables.CardCvv
+import PsecModel.Lemmas.Tables.CardPvv
+import PsecModel.Lemmas.Tables.CardIbm
 /-!
 # The model's tables are the tables in the source
 
 `PsecModel/Generated/Tables.lean` is regenerated from `/repo/psec/*.py` on every run (`harness/tables.py`, purely
-syntactic). The theorems live in `Lemmas/Tables/{Ascii,Version,Dispatch,Card}.lean` (one module per group of tables, so that a table
+syntactic). The theorems live in `Lemmas/Tables/{Ascii,Version,Dispatch,Card,CardCvv,CardPvv,CardIbm}.lean` (one module per group of tables, so that a table
 that stops agreeing takes down only the theorems about it); each states that a function of the hand-written model agrees with the regenerated table
 **on every key**, not only on the listed ones, so a table edited in the source (an entry changed, added or removed)
 leaves an obligation that no longer checks. The order of the entries does not matter. Every generated table is an
